@@ -17,9 +17,9 @@ def make_runs(tier, seed):
     rng = random.Random(seed * 7919 + 13)
     runs = []
 
-    def add(np_, nts, fail):
+    def add(np_, nts, fail, exckind="plain"):
         delays = [[rng.choice([0, 0, 1, 3, 8, 15]) for _ in range(n)] for n in nts]
-        runs.append({"id": len(runs) + 1, "np": np_, "nts": nts, "fail": fail, "delays": delays})
+        runs.append({"id": len(runs) + 1, "np": np_, "nts": nts, "fail": fail, "delays": delays, "exckind": exckind})
 
     # a failing task at every position, for 2..4 workers
     for np_ in (2, 3, 4):
@@ -34,12 +34,18 @@ def make_runs(tier, seed):
         add(np_, [3, 3], [[2, 3], [1]])
     add(4, [12], [[]])
     add(2, [12, 1], [[12], [1]])
+    # failures whose exception plain pickle cannot encode (a class defined inside a function, as hypnotoad's MaxIterException is; an attribute
+    # that is a lambda) or cannot rebuild (a constructor that does not take the message): the same behaviours (seed C13_failure_sent_unpickled)
+    for kind in ("local", "attr", "ctor"):
+        for np_ in (1, 2, 3):
+            add(np_, [4, 3], [[2], []], kind)
+            add(np_, [3, 2], [[1, 3], [2]], kind)
     n_extra = 12 if tier == "quick" else 150
     for _ in range(n_extra):
         np_ = rng.choice([1, 2, 2, 3, 3, 4])
         nts = [rng.randint(0, 12 if tier == "thorough" else 8) for _ in range(rng.choice([1, 2, 3]))]
         fail = [sorted(rng.sample(range(1, n + 1), rng.choice([0, 0, 1, 2]) if n >= 2 else 0)) for n in nts]
-        add(np_, nts, fail)
+        add(np_, nts, fail, rng.choice(["plain", "plain", "local", "attr", "ctor"]))
     return runs
 
 
@@ -75,12 +81,13 @@ def run(v, tier, seed):
     nacc = 0
     for t, (got, total) in zip(traces, verdicts):
         r = byid[t["id"]]
-        v.add_case("real np=%d nts=%s fail=%s delays=%s" % (r["np"], r["nts"], r["fail"], r["delays"]))
+        v.add_case("real np=%d nts=%s fail=%s exception=%s delays=%s" % (r["np"], r["nts"], r["fail"], r["exckind"], r["delays"]))
         if got == total and not t["hung"]:
             nacc += 1
         else:
             failing = any(r["fail"])
-            key = "C13 engine=real outcome=%s failing_task=%s" % ("hang" if t["hung"] else "rejected", failing)
+            key = "C13 engine=real outcome=%s failing_task=%s%s" % ("hang" if t["hung"] else "rejected", failing,
+                                                                      " exception=%s" % r["exckind"] if failing and r["exckind"] != "plain" else "")
             v.violation(key, "real-process trace not a behaviour of ParallelMap.tla: np=%d nts=%s fail=%s; TLC explained %d of %d events%s"
                         % (r["np"], r["nts"], r["fail"], got, total, "; the call blocked until the watchdog fired" if t["hung"] else ""),
                         {"run": r, "trace": t, "driver": "harness/drivers/pmap_real.py"})
